@@ -70,7 +70,7 @@ def _mueller(kind: str, code: str, ang, m: int):
             row = np.array([[0.5, 0.0]])
         return blockdiag_per_element(lambda e: row)
     sign = -1.0 if code.endswith('T') else 1.0
-    a = np.broadcast_to(np.asarray(ang, dtype=np.float64), (m,))
+    a = np.broadcast_to(np.asarray(ang, dtype=np.float64), LEAFSHAPE[0]).ravel()
 
     def rot(e):
         B = np.eye(nc)
@@ -84,20 +84,20 @@ def _mueller(kind: str, code: str, ang, m: int):
 
 
 ANGLE_FORMS = {1: [1, 0], 2: [0, 1], 3: [3, 0, 0, -1], 4: [1, 1]}
+LEAFSHAPE = [(2,)]        # shape of the Stokes components of the current case (set by execute)
 
 
 def _real_angles(form, alpha, beta):
+    """The integer linear form(s) evaluated on the real generators.  One form: q*alpha + n*beta with its natural
+    (broadcast) shape.  One form per element of the last axis: element e of the last axis uses form e."""
     import numpy as np
 
     vals = [form[2 * i] * alpha + form[2 * i + 1] * beta for i in range(len(form) // 2)]
     if len(vals) == 1:
         return np.asarray(vals[0], dtype=np.float64)
-    # one angle per element: element e uses the e-th form (alpha/beta scalar or per element)
-    out = []
-    for e, v in enumerate(vals):
-        v = np.asarray(v, dtype=np.float64)
-        out.append(float(v) if v.ndim == 0 else float(np.broadcast_to(v, (len(vals),))[e]))
-    return np.asarray(out)
+    shape = LEAFSHAPE[0]
+    full = [np.broadcast_to(np.asarray(v, dtype=np.float64), shape) for v in vals]
+    return np.stack([full[e][..., e] for e in range(len(vals))], axis=-1)
 
 
 def execute(case: dict) -> dict:
@@ -116,13 +116,18 @@ def execute(case: dict) -> dict:
     x64 = bool(jax.config.jax_enable_x64)
     dtype = jnp.float64 if (x64 and int(case['id'], 16) % 2 == 0) else jnp.float32
     tol = 1e-9 if dtype == jnp.float64 else 3e-5
-    m = 2
     rng = np.random.default_rng(int(case['id'], 16) % (2 ** 32))
-    shape_a = [(), (2,), (1,)][int(rng.integers(3))]
-    shape_b = [(), (2,), (1,)][int(rng.integers(3))]
+    # Stokes components of shape (2,) or (2, 2); angle generators of every shape that broadcasts to it (a (2,) array on
+    # (2, 2) components must broadcast the NumPy way, along the last axis)
+    leafshape = [(2,), (2, 2)][int(rng.integers(2))]
+    LEAFSHAPE[0] = leafshape
+    m = int(np.prod(leafshape))
+    choices = [(), (2,), (1,)] if leafshape == (2,) else [(), (2,), (1,), (2, 1), (1, 2), (2, 2)]
+    shape_a = choices[int(rng.integers(len(choices)))]
+    shape_b = choices[int(rng.integers(len(choices)))]
     alpha = rng.uniform(-7.0, 7.0, size=shape_a)
     beta = rng.uniform(-7.0, 7.0, size=shape_b)
-    struct = StokesPyTree.class_for(kind).structure_for((m,), dtype)
+    struct = StokesPyTree.class_for(kind).structure_for(leafshape, dtype)
     rots = {}
     use_numpy = int(case['id'], 16) % 3 == 0
     ops, want = [], None
@@ -146,7 +151,7 @@ def execute(case: dict) -> dict:
             M = _mueller(kind, code, ang, m)
         ops.append(op)
         want = M if want is None else want @ M
-    lifted = {'alpha_shape': list(shape_a), 'beta_shape': list(shape_b), 'dtype': str(np.dtype(dtype))}
+    lifted = {'leaf_shape': list(leafshape), 'alpha_shape': list(shape_a), 'beta_shape': list(shape_b), 'dtype': str(np.dtype(dtype))}
     try:
         comp = CompositionOperator(ops) if len(ops) > 1 else ops[0]
         before = terms.dense_of(comp)
@@ -172,8 +177,7 @@ def execute(case: dict) -> dict:
             for t, o in zip(spec_chain, real_chain):
                 if t['k'] in ('rot', 'rotT'):
                     form = t['p'] if t['k'] == 'rot' else t['ch'][0]['p']
-                    exp = np.broadcast_to(_real_angles(form, alpha, beta), (m,)) if len(form) > 2 else \
-                        np.asarray(_real_angles(form, alpha, beta))
+                    exp = np.asarray(_real_angles(form, alpha, beta))
                     got = np.asarray(o.angles if t['k'] == 'rot' else o.operator.angles, dtype=np.float64)
                     try:
                         diff = np.broadcast_to(got, np.broadcast_shapes(got.shape, exp.shape)) - exp
@@ -191,15 +195,15 @@ def execute(case: dict) -> dict:
     fac = None
     try:
         if len(chain) == 1 and chain[0] in ('R1', 'R2', 'R3', 'R4'):
-            fac = QURotationOperator.create((m,), dtype, kind, angles=jnp.asarray(angles_of[int(chain[0][1])], dtype=dtype))
+            fac = QURotationOperator.create(leafshape, dtype, kind, angles=jnp.asarray(angles_of[int(chain[0][1])], dtype=dtype))
         elif len(chain) == 1 and chain[0] == 'H':
-            fac = HWPOperator.create((m,), dtype, kind)
+            fac = HWPOperator.create(leafshape, dtype, kind)
         elif len(chain) == 1 and chain[0] == 'P':
-            fac = LinearPolarizerOperator.create((m,), dtype, kind)
+            fac = LinearPolarizerOperator.create(leafshape, dtype, kind)
         elif len(chain) == 2 and chain[0] == 'P' and chain[1] in ('R1', 'R2', 'R3', 'R4'):
-            fac = LinearPolarizerOperator.create((m,), dtype, kind, angles=jnp.asarray(angles_of[int(chain[1][1])], dtype=dtype))
+            fac = LinearPolarizerOperator.create(leafshape, dtype, kind, angles=jnp.asarray(angles_of[int(chain[1][1])], dtype=dtype))
         elif len(chain) == 3 and chain[1] == 'H' and chain[0] == chain[2] + 'T':
-            fac = HWPOperator.create((m,), dtype, kind, angles=jnp.asarray(angles_of[int(chain[2][1])], dtype=dtype))
+            fac = HWPOperator.create(leafshape, dtype, kind, angles=jnp.asarray(angles_of[int(chain[2][1])], dtype=dtype))
         if fac is not None:
             f = {}
             f['before_ok'], f['before_err'] = redcheck._close(terms.dense_of(fac), want, tol)
